@@ -205,7 +205,18 @@ impl Ref {
                     "+" => V::Num(num(x)? + num(y)?),
                     "-" => V::Num(num(x)? - num(y)?),
                     "*" => V::Num(num(x)? * num(y)?),
+                    "/" => {
+                        let (p, q) = (num(x)?, num(y)?);
+                        if q == 0.0 {
+                            return Err(Raise("division by zero".into()));
+                        }
+                        V::Num(p / q)
+                    }
                     "<" => V::Bool(num(x)? < num(y)?),
+                    ">" => V::Bool(num(x)? > num(y)?),
+                    "<=" => V::Bool(num(x)? <= num(y)?),
+                    ">=" => V::Bool(num(x)? >= num(y)?),
+                    "!=" => V::Bool(num(x)? != num(y)?),
                     "==" => V::Bool(num(x)? == num(y)?),
                     "&&" => V::Bool(boolean(x)? && boolean(y)?),
                     "||" => V::Bool(boolean(x)? || boolean(y)?),
@@ -542,7 +553,7 @@ impl Gen {
                         let ra = self.exact(Ty::Num, rs);
                         for a in la.iter() {
                             for b in ra.iter() {
-                                for op in ["+", "-", "*"] {
+                                for op in ["+", "-", "*", "/"] {
                                     out.push(bin(op, a.clone(), b.clone()));
                                 }
                                 out.push(call("sub2", vec![a.clone(), b.clone()]));
@@ -585,8 +596,9 @@ impl Gen {
                         let (la, ra) = (self.exact(Ty::Num, ls), self.exact(Ty::Num, rs));
                         for a in la.iter() {
                             for b in ra.iter() {
-                                out.push(bin("<", a.clone(), b.clone()));
-                                out.push(bin("==", a.clone(), b.clone()));
+                                for op in ["<", "==", ">", "<=", ">=", "!="] {
+                                    out.push(bin(op, a.clone(), b.clone()));
+                                }
                             }
                         }
                         let (lb, rb) = (self.exact(Ty::Bool, ls), self.exact(Ty::Bool, rs));
